@@ -133,7 +133,14 @@ def tree_spec(draw, git=None, max_nodes=22):
             submods.append(draw(st.sampled_from(meson)))
         elif cand and draw(st.integers(0, 2)) == 0:
             submods.append(draw(st.sampled_from(cand)))
-        spec["git"] = {"ignore": ignore, "tracked": tracked, "forced": forced, "submodules": submods}
+        # rules that live outside any .gitignore (.git/info/exclude)
+        exclude = []
+        if draw(st.integers(0, 2)) == 0:
+            for _ in range(draw(st.integers(1, 2))):
+                f = draw(st.sampled_from(files))
+                exclude.append(draw(st.sampled_from([f.rsplit("/", 1)[-1], "/" + f, "*" + os.path.splitext(f)[1] if os.path.splitext(f)[1] else f.rsplit("/", 1)[-1]])))
+            exclude = [p for p in exclude if "#" not in p and not p.startswith(("-", "!"))]
+        spec["git"] = {"ignore": ignore, "tracked": tracked, "forced": forced, "submodules": submods, "exclude": exclude}
     return spec
 
 
@@ -160,6 +167,9 @@ def materialise(root: Path, spec, git_top: Path = None) -> None:
         prefix = os.path.relpath(root, git_top) + "/"
         T.write_tree(git_top, {".gitignore": "*.bin\nbuild/\n/" + prefix + "UPPER.TXT\n", "top-level.py": "x\n"})
         T.git_init(git_top)
+        if g.get("exclude"):
+            with open(git_top / ".git/info/exclude", "a") as fp:
+                fp.write("\n".join(g["exclude"]) + "\n")
         for p in g["tracked"]:
             T.git(git_top, "add", "--", prefix + p, check=False)
         for p in g["forced"]:
@@ -167,6 +177,9 @@ def materialise(root: Path, spec, git_top: Path = None) -> None:
         return
     if g:
         T.git_init(root)
+        if g.get("exclude"):
+            with open(root / ".git/info/exclude", "a") as fp:
+                fp.write("\n".join(g["exclude"]) + "\n")
         for sm in g["submodules"]:
             # "manual" submodule: nested repository + .gitmodules entry
             T.git(root / sm, "init", "-q", "-b", "main")
